@@ -11,8 +11,9 @@ What is modelled, branch by branch, FAULT paths and order of effects included:
 * every contract's `Update` (`update`) and the `isUpdate` branch of its `_deploy` (`migrate`):
   Balance (`switchToNotary`, `switchToAccPrefixes`), Container (un-prefixed 32/57-byte keys → `x`/`o`,
   `switchToNotary`), Netmap (node structures < 0.16, `switchToNotary`, subscribers < 0.19),
-  NNS (< 0.18: TLD owners), NeoFSID, Audit, Reputation, Proxy, NeoFS, Processing, Alphabet (the
-  GAS distribution of a non-notary Alphabet contract is NOT modelled: the model FAULTs there).
+  NNS (< 0.18: TLD owners), NeoFSID, Audit, Reputation, Proxy, NeoFS, Processing, Alphabet (incl. the
+  GAS distribution of a non-notary Alphabet contract: native GAS transfers and Notary deposits on a
+  `Ledger` supplied by the environment).
 
 A contract instance is `CState` = the version constant compiled into the deployed executable + its
 storage. `step` returns `none` for a FAULT, `invoke` restores the old state then (atomicity).
@@ -32,6 +33,37 @@ inductive Acct where
   | user (t : Nat)
   deriving Repr, DecidableEq
 
+/-- native GAS balances and Notary deposits. Balances and deposited amounts are lists of signed deltas:
+the balance of an account is the sum of its entries (no uniqueness invariant needed). Accounts are
+20-byte script hashes; the standard account of a 33-byte public key is represented by the key itself
+(hashes are not computed; distinctness of all script hashes involved is assumed, DESIGN section 4). -/
+structure Ledger where
+  bal : List (Bytes × Int) := []
+  /-- Notary: deposited amounts (deltas) -/
+  dep : List (Bytes × Int) := []
+  /-- Notary: `till` of the accounts that have a deposit -/
+  till : List (Bytes × Int) := []
+  deriving Repr
+
+/-- what the Alphabet migration sees of the chain besides its own storage -/
+structure AlphaEnv where
+  /-- `runtime.GetExecutingScriptHash()` -/
+  self : Bytes := []
+  /-- hash of the native Notary contract -/
+  notary : Bytes := []
+  /-- the deployed Netmap contract and what its `netmap()` / `innerRingList()` answer -/
+  netmapHash : Bytes := []
+  nodes : List Item := []
+  irKeys : List Bytes := []
+  /-- what `common.ResolveFSContract("proxy")` answers (`none`: FAULT) -/
+  nnsProxy : Option Bytes := none
+  /-- deployed contracts whose `onNEP17Payment` is missing or refuses GAS -/
+  rejecting : List Bytes := []
+  /-- Policy: fee of the NotaryAssisted attribute (the first deposit must be twice that) -/
+  notaryFee : Int := 0
+  ledger : Ledger := {}
+  deriving Repr
+
 structure Env where
   witnesses : List Acct
   /-- `neo.GetCommittee()` -/
@@ -40,6 +72,7 @@ structure Env where
   role : List Nat
   /-- `ledger.CurrentIndex()` -/
   height : Int
+  alpha : AlphaEnv := {}
   deriving Repr
 
 structure CState where
@@ -342,56 +375,188 @@ def auditMigrate (v : Int) (h : Int) (s : Store) : Option Store :=
 def reputationMigrate (v : Int) (h : Int) (s : Store) : Option Store :=
   if v < 17000 then switchToNotary [] true s h else some s
 
-/-- Alphabet `switchToNotary(ctx, args)`. Modelled: the argument accesses, "already notarized", the
-`notary = false` case, the Proxy-address test and the pending-vote test of the `notary = true` case.
-NOT modelled: the GAS distribution that follows (the model FAULTs instead). -/
-def alphabetSwitch (args : List Item) (h : Int) (s : Store) : Option Store :=
+/-! ### Alphabet: native GAS and Notary as `switchToNotary` uses them -/
+
+def sumOf (l : List (Bytes × Int)) (a : Bytes) : Int :=
+  match l with
+  | [] => 0
+  | (k, x) :: r => (if k = a then x else 0) + sumOf r a
+
+/-- `gas.BalanceOf(a)` -/
+def balOf (L : Ledger) (a : Bytes) : Int := sumOf L.bal a
+/-- Notary `balanceOf(a)` -/
+def depOf (L : Ledger) (a : Bytes) : Int := sumOf L.dep a
+
+def tillOf (l : List (Bytes × Int)) (a : Bytes) : Option Int :=
+  match l with
+  | [] => none
+  | (k, t) :: r => if k = a then some t else tillOf r a
+
+/-- total GAS on all accounts -/
+def totalGas (L : Ledger) : Int := (L.bal.map (·.2)).sum
+
+def alphaProxyKey : Bytes := NeoFS.Generated.alphabet_proxyKey_bytes
+def lockInterval : Int := alphabet_switchToNotary_lockInterval
+def notaryDepositLimit : Int := alphabet_switchToNotary_notaryDepositLimit
+/-- neo-go `defaultDepositDeltaTill`: the lock of a first deposit made by somebody else -/
+def depositDeltaTill : Int := 5760
+
+/-- `gas.Transfer(self, to, amt, data)` called by the contract itself; `none` = the call FAULTs or answers
+`false` (every caller here panics then). `data = some (receiver, till)` is the Notary deposit request.
+* insufficient funds ⇒ `false`;
+* `to` = Notary: `onNEP17Payment` of the native contract: `data` must be the 2-element array, `till ≥ height+2`,
+  not below an existing deposit's `till`, a FIRST deposit must be at least twice the NotaryAssisted fee and -
+  the transaction's sender not being the receiver - is locked until `height + 5760`; an existing lock stays;
+* `to` is a contract without a working `onNEP17Payment` ⇒ FAULT. -/
+def gasTransfer (h : Int) (ae : AlphaEnv) (L : Ledger) (to : Bytes) (amt : Int) (data : Option (Bytes × Int)) :
+    Option Ledger :=
+  if amt < 0 then none
+  else if balOf L ae.self < amt then none
+  else
+    let L1 : Ledger := { L with bal := (to, amt) :: (ae.self, -amt) :: L.bal }
+    if to = ae.notary then
+      match data with
+      | none => none
+      | some (rcv, till) =>
+        if till < h + 2 then none
+        else
+          match tillOf L.till rcv with
+          | some t => if till < t then none else some { L1 with dep := (rcv, amt) :: L1.dep }
+          | none =>
+            if amt < 2 * ae.notaryFee then none
+            else some { L1 with dep := (rcv, amt) :: L1.dep, till := L1.till ++ [(rcv, h + depositDeltaTill)] }
+    else if ae.rejecting.contains to then none
+    else some L1
+
+/-- `storageNodes[i].blob[2:35]` -/
+def nodeKey (n : Item) : Option Bytes :=
+  match elems n with
+  | some (Item.bytes b :: _) => if b.length < 35 then none else some ((b.drop 2).take 33)
+  | some (Item.buffer b :: _) => if b.length < 35 then none else some ((b.drop 2).take 33)
+  | _ => none
+
+def nodeKeys : List Item → Option (List Bytes)
+  | [] => some []
+  | n :: r =>
+    match nodeKey n with
+    | none => none
+    | some k =>
+      match nodeKeys r with
+      | none => none
+      | some ks => some (k :: ks)
+
+/-- the two loops over Inner Ring and storage nodes: `simple` to the node's account, `part` as its Notary deposit -/
+def payNodes (h : Int) (ae : AlphaEnv) (simple part : Int) : Ledger → List Bytes → Option Ledger
+  | L, [] => some L
+  | L, k :: r =>
+    match gasTransfer h ae L k simple none with
+    | none => none
+    | some L1 =>
+      match gasTransfer h ae L1 ae.notary part (some (k, h + lockInterval)) with
+      | none => none
+      | some L2 => payNodes h ae simple part L2 r
+
+/-- the amounts of the distribution for a contract balance `b` and `n` nodes: to Proxy, plain per node, Notary
+deposit per node -/
+def alphaShares (b : Int) (n : Int) : Int × Int × Int :=
+  let currentGAS := b * 3 / 4
+  let toProxy := currentGAS / 2
+  let perNode := (currentGAS - toProxy) / n
+  let part := if perNode / 2 > notaryDepositLimit then notaryDepositLimit else perNode / 2
+  (toProxy, perNode - part, part)
+
+/-- the Proxy address: `args[2]`, or the NNS record when the argument is empty (`none` = FAULT; an argument
+that is not a byte string, e.g. Null, is not modelled: FAULT) -/
+def alphaProxy (args : List Item) (ae : AlphaEnv) : Option Bytes :=
+  match args[2]? with
+  | some (Item.bytes p) => if p.length > 0 then (if p.length ≠ 20 then none else some p) else ae.nnsProxy
+  | _ => none
+
+/-- the Netmap address: `args[1]`, or the stored one when the argument is empty -/
+def alphaNetmap (args : List Item) (s1 : Store) : Option Bytes :=
+  match args[1]? with
+  | some (Item.bytes nm) => if nm.length > 0 then (if nm.length ≠ 20 then none else some nm) else get s1 netmapHashKey
+  | _ => none
+
+/-- "distribute 75% of available GAS": half of it to Proxy, the rest evenly between Inner Ring and storage nodes,
+each node's share split between its account and its Notary deposit -/
+def alphaDistribute (h : Int) (ae : AlphaEnv) (proxy : Bytes) : Option Ledger :=
+  if balOf ae.ledger ae.self * 3 / 4 = 0 then none                  -- "no GAS in the contract"
+  else if ae.nodes.length + ae.irKeys.length = 0 then none          -- division by zero
+  else
+    let sh := alphaShares (balOf ae.ledger ae.self) ((ae.nodes.length + ae.irKeys.length : Nat) : Int)
+    match gasTransfer h ae ae.ledger proxy sh.1 none with
+    | none => none
+    | some L1 =>
+      match nodeKeys ae.nodes with
+      | none => none
+      | some snKeys => payNodes h ae sh.2.1 sh.2.2 L1 (ae.irKeys ++ snKeys)
+
+/-- the `notary = true` branch after the flag test -/
+def alphaNonNotary (args : List Item) (h : Int) (ae : AlphaEnv) (s : Store) : Option (Store × Ledger) :=
+  match alphaProxy args ae with
+  | none => none
+  | some proxy =>
+    match tryPurgeVotes s h with
+    | none => none
+    | some r =>
+      if !r.1 then none                                   -- "pending vote detected"
+      else
+        match alphaNetmap args r.2 with
+        | none => none
+        | some nm =>
+          if nm ≠ ae.netmapHash then none                 -- no such contract
+          else
+            match alphaDistribute h ae proxy with
+            | none => none
+            | some L2 => some (del (put r.2 alphaProxyKey proxy) notaryKey, L2)
+
+/-- the contract name is only logged; a number (as the appended version would be) is in general not valid
+UTF-8 and `runtime.Log` FAULTs: the model FAULTs on every numeric name where it is logged -/
+def loggableName : Item → Bool
+  | Item.int _ => false
+  | _ => true
+
+/-- Alphabet `switchToNotary(ctx, args)`, every branch: the storage afterwards and the GAS/Notary ledger
+afterwards -/
+def alphabetSwitchFull (args : List Item) (h : Int) (ae : AlphaEnv) (s : Store) : Option (Store × Ledger) :=
   match args[3]? with                                    -- `contractName := args[3].(string)`
   | none => none
   | some nameI =>
-    -- the name is only logged; a number (as the appended version would be) is in general not valid
-    -- UTF-8 and `runtime.Log` FAULTs: the model FAULTs on every numeric name where it is logged
-    let loggable := match nameI with | Item.int _ => false | _ => true
     match get s notaryKey with
-    | none => if loggable then some s else none
+    | none => if loggableName nameI then some (s, ae.ledger) else none
     | some nv =>
       match bytesToBool nv with
       | none => none
-      | some false => some (del s notaryKey)
-      | some true =>
-        match args[2]? with
-        | some (Item.bytes p) =>
-          if p.length ≠ 20 then none                     -- invalid (or, when empty, unresolved) Proxy address
-          else
-            match tryPurgeVotes s h with
-            | none => none
-            | some (false, _) => none                    -- "pending vote detected"
-            | some (true, _) => none                     -- GAS distribution: not modelled
-        | _ => none
+      | some false => some (del s notaryKey, ae.ledger)
+      | some true => if loggableName nameI then alphaNonNotary args h ae s else none
 
-def alphabetMigrate (v : Int) (args : List Item) (h : Int) (s : Store) : Option Store :=
-  if v < 17000 then alphabetSwitch args h s else some s
+def alphabetSwitch (args : List Item) (h : Int) (ae : AlphaEnv) (s : Store) : Option Store :=
+  (alphabetSwitchFull args h ae s).map (·.1)
+
+def alphabetMigrate (v : Int) (args : List Item) (h : Int) (ae : AlphaEnv) (s : Store) : Option Store :=
+  if v < 17000 then alphabetSwitch args h ae s else some s
 
 /-- the `isUpdate` branch of `_deploy` after `CheckVersion`, per contract -/
-def migrate (k : Kind) (v : Int) (args : List Item) (h : Int) (s : Store) : Option Store :=
+def migrate (k : Kind) (v : Int) (args : List Item) (env : Env) (s : Store) : Option Store :=
   match k with
-  | .balance => balanceMigrate v h s
-  | .container => containerMigrate v h s
-  | .netmap => netmapMigrate v h s
+  | .balance => balanceMigrate v env.height s
+  | .container => containerMigrate v env.height s
+  | .netmap => netmapMigrate v env.height s
   | .nns => nnsMigrate v s
-  | .neofsid => neofsidMigrate v h s
-  | .alphabet => alphabetMigrate v args h s
-  | .audit => auditMigrate v h s
-  | .reputation => reputationMigrate v h s
+  | .neofsid => neofsidMigrate v env.height s
+  | .alphabet => alphabetMigrate v args env.height env.alpha s
+  | .audit => auditMigrate v env.height s
+  | .reputation => reputationMigrate v env.height s
   | .proxy => some s
   | .neofs => some s
   | .processing => some s
 
 /-- `_deploy(args, isUpdate = true)` of the NEW executable -/
-def deployUpdate (k : Kind) (args : List Item) (h : Int) (s : Store) : Option Store :=
+def deployUpdate (k : Kind) (args : List Item) (env : Env) (s : Store) : Option Store :=
   match deployVersion args with
   | none => none
-  | some v => if checkVersion v then migrate k v args h s else none
+  | some v => if checkVersion v then migrate k v args env s else none
 
 /-! ### operations -/
 
@@ -416,9 +581,21 @@ def update (k : Kind) (st : CState) (env : Env) (data : Item) (nefOk : Bool) : O
     | some args =>
       if !nefOk then none
       else
-        match deployUpdate k args env.height st.store with
+        match deployUpdate k args env st.store with
         | none => none
         | some s' => some ⟨common_Version, s'⟩
+
+/-- the GAS/Notary ledger after `Update`: only a HALTed upgrade of a pre-0.17 Alphabet contract moves GAS; a
+FAULT leaves the ledger as it was (atomicity; fees are paid by the transaction's sender, not the contract) -/
+def ledgerAfterUpdate (k : Kind) (st : CState) (env : Env) (data : Item) (nefOk : Bool) : Ledger :=
+  match update k st env data nefOk, k, appendVersion data st.ver with
+  | some _, .alphabet, some args =>
+    if st.ver < 17000 then
+      match alphabetSwitchFull args env.height env.alpha st.store with
+      | some (_, L) => L
+      | none => env.alpha.ledger
+    else env.alpha.ledger
+  | _, _, _ => env.alpha.ledger
 
 def step (k : Kind) (st : CState) (env : Env) : Op → Option CState
   | .update data nefOk => update k st env data nefOk
